@@ -209,6 +209,7 @@ package proto
 //@   modifies b.Buf
 //@   ensures appendOnly(b, strOff(fieldarr(c.Pos, Start), fieldarr(c.Pos, End), offset(c.Pos), len(c.Pos))) {length}
 //@   ensures strImg(c, b, offset(b.Buf) + old(len(b.Buf))) {rows-image}
+//@   ensures forall k in 0..len(c.Pos) :: trigger(strOff(fieldarr(c.Pos, Start), fieldarr(c.Pos, End), offset(c.Pos), k), 0 <= strOff(fieldarr(c.Pos, Start), fieldarr(c.Pos, End), offset(c.Pos), k) && strOff(fieldarr(c.Pos, Start), fieldarr(c.Pos, End), offset(c.Pos), k + 1) <= strOff(fieldarr(c.Pos, Start), fieldarr(c.Pos, End), offset(c.Pos), len(c.Pos))) {offsets-ordered}
 //@ loop 0 (rangeindex)
 //@   modifies b.Buf, contents(buf)
 //@   invariant -1 <= rangeindex && rangeindex < len(c.Pos) && len(buf) == 10
@@ -263,6 +264,15 @@ package proto
 //@ -- DecodeColumn overwrites the column (it does not need a prior Reset) and leaves it well-formed.
 //@ -- The string length read from the stream has NO cap in the library: the allocation and overflow
 //@ -- obligations on it are known findings (see /verif/KNOWN_FINDINGS.txt).
+//@ -- dOff(in, p0, k): stream position of the length prefix of row k when rows are laid out from p0
+//@ spec func dOff(s Bytes, p Int, k Int) Int
+//@ axiom dOff_zero when dOff: forall s:Bytes, p :: dOff(s, p, 0) == p
+//@ axiom dOff_step when dOff: forall s:Bytes, p, k, k2 :: trigger(dOff(s, p, k), dOff(s, p, k2), 0 <= k && k2 == k + 1 ==> dOff(s, p, k2) == dOff(s, p, k) + uvlen(s, dOff(s, p, k)) + i64(uvval(s, dOff(s, p, k))))
+
+//@ -- strRows(c, in, p0, n): rows 0..n-1 of c are, contiguously from buffer position 0, the strings
+//@ -- laid out in the stream from p0 (length = the varint at dOff(k), bytes = what follows it)
+//@ spec func strRows(c Val, r Val, p0 Int, n Int) Bool = (forall k in 0..n :: trigger(dOff(r.in, p0, k), c.Pos[k].End - c.Pos[k].Start == i64(uvval(r.in, dOff(r.in, p0, k))) && c.Pos[k].Start == ite(k == 0, 0, c.Pos[k - 1].End))) && (forall k in 0..n :: trigger(dOff(r.in, p0, k), forall j in 0..c.Pos[k].End - c.Pos[k].Start :: c.Buf[c.Pos[k].Start + j] == r.in[dOff(r.in, p0, k) + uvlen(r.in, dOff(r.in, p0, k)) + j]))
+
 //@ contract (c *ColStr) DecodeColumn(r, rows) (err) props(C06)
 //@   requires c != nil && r != nil && 0 <= rows && rows <= maxRowsInBLock
 //@   modifies c.Buf, c.Pos, contents(c.Buf), r.pos, r.failed, r.b.Buf
@@ -271,12 +281,32 @@ package proto
 //@   ensures err == nil ==> wfStr(c) [C01,C06,C16] {positions-inside-buffer}
 //@   ensures err == nil ==> r.failed == old(r.failed) [C06,C07]
 //@   ensures old(r.pos) <= r.pos && r.pos <= r.end [C06,C07]
+//@   ensures err == nil ==> r.pos == dOff(r.in, old(r.pos), rows) [C01,C07,C08,C16] {consumes-exactly}
+//@   ensures err == nil ==> strRows(c, r, old(r.pos), rows) [C01,C08,C16] {rows-are-the-stream-strings}
+//@   ensures err == nil && rows > 0 ==> len(c.Buf) == c.Pos[rows - 1].End [C01,C16] {buffer-is-exactly-the-rows}
+//@   ensures err == nil && rows == 0 ==> len(c.Buf) == 0 [C01,C16] {empty-buffer-for-no-rows}
+//@   ensures r.reliable && !old(r.failed) && (forall k in 0..rows :: trigger(dOff(r.in, old(r.pos), k), uvok(r.in, dOff(r.in, old(r.pos), k)) && 0 <= i64(uvval(r.in, dOff(r.in, old(r.pos), k))) && dOff(r.in, old(r.pos), k + 1) <= r.end)) ==> err == nil [C01,C08] {accepts-well-formed}
 //@ loop 0 (i)
 //@   modifies c.Buf, c.Pos, *p, r.pos, r.failed, r.b.Buf
 //@   invariant 0 <= i && i <= rows && len(c.Pos) == i
 //@   invariant 0 <= p.Start && p.Start <= p.End && p.End <= len(c.Buf)
 //@   invariant forall k in 0..i :: 0 <= c.Pos[k].Start && c.Pos[k].Start <= c.Pos[k].End && c.Pos[k].End <= p.End
 //@   invariant r.failed == old(r.failed) && old(r.pos) <= r.pos && r.pos <= r.end
+//@   invariant r.pos == dOff(r.in, old(r.pos), i)
+//@   invariant (i == 0 ==> p.End == 0) && (i > 0 ==> p.End == c.Pos[i - 1].End)
+//@   invariant strRows(c, r, old(r.pos), i)
+
+//@ contract lemmaColStrRoundTrip(c) (d, r, err) props(C01)
+//@   requires wfStr(c) && len(c.Pos) <= maxRowsInBLock
+//@   ensures err == nil {decodes}
+//@   ensures r.pos == r.end {consumes-exactly-the-encoded-bytes}
+//@   ensures len(d.Pos) == len(c.Pos) {same-row-count}
+//@   ensures forall k in 0..len(c.Pos) :: trigger(strOff(fieldarr(c.Pos, Start), fieldarr(c.Pos, End), offset(c.Pos), k), d.Pos[k].End - d.Pos[k].Start == c.Pos[k].End - c.Pos[k].Start) {same-row-lengths}
+//@   ensures forall k in 0..len(c.Pos) :: trigger(strOff(fieldarr(c.Pos, Start), fieldarr(c.Pos, End), offset(c.Pos), k), forall j in 0..c.Pos[k].End - c.Pos[k].Start :: d.Buf[d.Pos[k].Start + j] == c.Buf[c.Pos[k].Start + j]) {same-row-bytes}
+//@ loop 0 (k)
+//@   invariant 0 <= k && k <= len(c.Pos)
+//@   invariant dOff(r.in, 0, k) == strOff(fieldarr(c.Pos, Start), fieldarr(c.Pos, End), offset(c.Pos), k)
+//@   invariant forall m in 0..k + 1 :: triggers(strOff(fieldarr(c.Pos, Start), fieldarr(c.Pos, End), offset(c.Pos), m), dOff(r.in, 0, m), dOff(r.in, 0, m) == strOff(fieldarr(c.Pos, Start), fieldarr(c.Pos, End), offset(c.Pos), m))
 
 // ---------------------------------------------------------------------------
 // LowCardinality(T): dictionary (index column) + keys + materialised Values
